@@ -189,4 +189,36 @@ theorem crash_first_commit_fails :
     (restarted.bind fun s => (commitMS id [nA, nB] (s.applyBlock block1')).map fun r => decide (r.2.1.hash = (first.map (·.2.1.hash)).getD [])) = some false := by
   decide
 
+/-! ## Non-vacuity of the hypotheses: a two-substore history with different iteration orders, which
+the model runs and recovers from a mid-commit crash of its second commit -/
+
+private def lA : Tree := .leaf [1] [1] 1
+private def lA2 : Tree := .leaf [1] [2] 2
+private def nx1 : RootMulti.Name → Option Tree := fun n => if n = nA then some lA else none
+private def nx2 : RootMulti.Name → Option Tree := fun n => if n = nA then some lA2 else none
+
+example : GoodBlocks (fun s => s = lA ∨ s = lA2) [nA, nB] (fun _ => []) 0 [([nA, nB], nx1), ([nB, nA], nx2)] := by
+  have ord1 : IsOrder [nA, nB] [nA, nB] := ⟨by decide, fun _ => Iff.rfl⟩
+  have ord2 : IsOrder [nA, nB] [nB, nA] := ⟨by decide, fun n => by simp [or_comm]⟩
+  refine ⟨ord1, ?_, ord2, ?_, trivial⟩
+  · intro n hn
+    simp only [List.mem_cons, List.mem_nil_iff, or_false] at hn
+    rcases hn with rfl | rfl
+    · constructor <;> simp [nx1, nA, subtreesOpt, Tree.subtrees, lA, lastOf, Tree.version, Tree.WF, isInt64]
+    · constructor <;> simp [nx1, nA, nB, subtreesOpt, lastOf]
+  · intro n hn
+    simp only [List.mem_cons, List.mem_nil_iff, or_false] at hn
+    rcases hn with rfl | rfl
+    · constructor <;> simp [nx1, nx2, nA, subtreesOpt, Tree.subtrees, lA, lA2, lastOf, Tree.version, Tree.WF, isInt64]
+    · constructor <;> simp [nx1, nx2, nA, nB, subtreesOpt, lastOf]
+
+/-- The model on that history: commit 1, commit 2 interrupted after its first batch (substore `b`),
+restart, re-execution in the other order — same commit id as the uninterrupted second commit. -/
+example :
+    (((openMS id disk0 [nA, nB]).bind fun s0 => commitMS id [nA, nB] (s0.applyBlock (fullBlock [nA, nB] nx1))).bind fun r1 =>
+      (commitMS id [nB, nA] (r1.1.applyBlock (fullBlock [nA, nB] nx2))).bind fun r2 =>
+        (openMS id (crashDisk r1.1.disk r2.2.2 1) [nA, nB]).bind fun rec =>
+          (commitMS id [nA, nB] (rec.applyBlock (fullBlock [nA, nB] nx2))).map fun r3 =>
+            (rec.lastCommitID.version, decide (r3.2.1 = r2.2.1))) = some (1, true) := by decide
+
 end C07
